@@ -1,0 +1,36 @@
+//go:build verif
+
+package ebpf
+
+import "github.com/cilium/ebpf"
+
+// Verification hook for property C06 (add-only; compiled only with -tags verif).
+
+// VerifC06SetMaps injects already-created kernel maps, addressed by the names
+// the C sources declare them under, in place of the ones Load takes from the
+// compiled collection (Load needs the compiled object and a NIC).  Names that
+// are absent from the argument (or map to nil) leave the corresponding field
+// untouched; unknown names are ignored.  The maps themselves are not touched.
+func (l *Loader) VerifC06SetMaps(maps map[string]*ebpf.Map) {
+	for name, m := range maps {
+		if m == nil {
+			continue
+		}
+		switch name {
+		case "subscriber_pools":
+			l.subscriberPools = m
+		case "vlan_subscriber_pools":
+			l.vlanSubscriberPools = m
+		case "ip_pools":
+			l.ipPools = m
+		case "stats_map":
+			l.statsMap = m
+		case "server_config":
+			l.serverConfigMap = m
+		case "circuit_id_map":
+			l.circuitIDMap = m
+		case "circuit_id_subscribers":
+			l.circuitIDSubscribers = m
+		}
+	}
+}
